@@ -646,8 +646,9 @@ class C34Engine(Engine):
         discrete = eff != "variational_gamma"
         # options that belong to the method (usually) and options that do not (sometimes)
         if tape.chance("popsize", 0.9 if discrete else 0.1):
-            ne = tape.pick("Ne", [1.0, 100.0, 0.5])
-            argv += [tape.pick("n_flag", ["-n", "--population_size"]), repr(ne)]
+            text, ne = tape.pick("Ne", [("1.0", 1.0), ("100.0", 100.0), ("0.5", 0.5), ("1e2", 100.0), ("5e-1", 0.5),
+                                        ("100", 100.0)])
+            argv += [tape.pick("n_flag", ["-n", "--population_size"]), text]
             kw["population_size"] = ne
             flags.append("opt_population_size")
         if tape.chance("threads", 0.3 if discrete else 0.08):
@@ -661,8 +662,8 @@ class C34Engine(Engine):
             kw["probability_space"] = sp
             flags.append("opt_probability_space")
         if tape.chance("eps", 0.3 if discrete else 0.1):
-            e = tape.pick("eps_v", [1e-6, 1e-10, 0.0])
-            argv += [tape.pick("e_flag", ["-e", "--epsilon"]), repr(e)]
+            text, e = tape.pick("eps_v", [("1e-06", 1e-6), ("1e-10", 1e-10), ("0.0", 0.0), ("0.000001", 1e-6), ("0", 0.0)])
+            argv += [tape.pick("e_flag", ["-e", "--epsilon"]), text]
             kw["eps"] = e
             flags.append("opt_epsilon")
         if tape.chance("iters", 0.5 if not discrete else 0.08):
@@ -676,8 +677,8 @@ class C34Engine(Engine):
             kw["rescaling_intervals"] = r
             flags.append("opt_rescaling_intervals")
         if tape.chance("mbl", 0.3):
-            b = tape.pick("mbl_v", [1e-4, 0.5, 1e-12])
-            argv += [tape.pick("b_flag", ["-b", "--min-branch-length"]), repr(b)]
+            text, b = tape.pick("mbl_v", [("0.0001", 1e-4), ("0.5", 0.5), ("1e-12", 1e-12), ("5e-1", 0.5), ("1E-4", 1e-4)])
+            argv += [tape.pick("b_flag", ["-b", "--min-branch-length"]), text]
             kw["min_branch_length"] = b
             flags.append("opt_min_branch_length")
         if tape.chance("rec", 0.05):
@@ -713,8 +714,10 @@ class C34Engine(Engine):
         kw = {}
         parser_reject = False
         if tape.chance("gap", 0.5):
-            g = tape.pick("gap_v", [10.0, 100.0, 1e6, 3.0])
-            argv += ["--minimum_gap", repr(g)]
+            # the same number in several legal spellings: what reaches the API must be the value, whatever the text
+            text, g = tape.pick("gap_v", [("10.0", 10.0), ("100.0", 100.0), ("1e6", 1e6), ("3", 3.0), ("105e-1", 10.5),
+                                          ("25E-1", 2.5), ("1000000", 1e6), ("5e-1", 0.5), ("1.05e1", 10.5)])
+            argv += ["--minimum_gap", text]
             kw["minimum_gap"] = g
             flags.append("opt_minimum_gap")
         if tape.chance("flanks", 0.6):
